@@ -63,7 +63,7 @@ def int_cases():
 
 def real_cases():
     cases = []
-    for txt in ['0.0', '1.5', '3.14159', '1_0.2_5', '1.0E5', '1.0e5', '2.5E-3', '6.02E+23', '1.0E+5', '1.7976931348623157E308', '1.0E309',
+    for txt in ['0.0', '1.5', '3.14159', '1_0.2_5', '1.0E5', '1.0e5', '2.5E-3', '6.02E+23', '1.0E+5', '1.7976931348623157E308', '1.7976931348623158E308', '1.7976931348623159E308', '1.0E309', '1.0E400', '1.0E99999',
                 '4.9E-324', '1.0E-400', '0.1', '123456789.123456789', '1.0e1_0']:
         for sign in ['', '-', '+']:
             for ty in [None, 'REAL', 'LREAL']:
@@ -71,6 +71,7 @@ def real_cases():
                 clean = ('-' if sign == '-' else '') + txt.replace('_', '')
                 try:
                     f = float(clean)
+                    if f in (float('inf'), float('-inf')): raise OverflowError   # beyond the largest LREAL: not representable
                     exp = f'real {struct.pack(">d", f).hex()} {ty or "-"}'
                 except (ValueError, OverflowError):
                     exp = 'ERR P0002'
